@@ -14,7 +14,7 @@ def _replace():
         out[k] = v
     return out or None
 
-FILES = ["ks/zz_verif_ks_common_test.go", "C01/zz_verif_c01_test.go"]
+FILES = ["ks/zz_verif_ks_common_test.go", "ks/zz_verif_ks_overlap_test.go", "C01/zz_verif_c01_test.go"]
 
 
 def run(ctx):
